@@ -150,7 +150,9 @@ func runC03(r *ev.Run) {
 							continue
 						}
 					}
-					checkTextAnswer(func(sig, what string) { rep(sig, fmt.Sprintf("query %q k=%d restricted=%v: %s", q, k, docIDs != nil, what)) }, tag, got, exp, k, allowed, r)
+					checkTextAnswer(func(sig, what string) {
+						rep(sig, fmt.Sprintf("query %q k=%d restricted=%v: %s", q, k, docIDs != nil, what))
+					}, tag, got, exp, k, allowed, r)
 					r.Count("probes:single", 1)
 				}
 			}
